@@ -11,6 +11,7 @@ import (
 	"sort"
 	"strings"
 
+	"github.com/cosmos72/gomacro/go/types"
 	xr "github.com/cosmos72/gomacro/xreflect"
 
 	"verif/harness/core"
@@ -569,6 +570,23 @@ func (k *c29Checker) attrs(t xr.Type, rt r.Type, idx int) {
 			k.viol("numfield", rt, idx, "NumField() = %d, reflect %d", t.NumField(), rt.NumField())
 			return
 		}
+		// the go/types half of the type (the one that decides identity, canonicity and String()) must describe the
+		// same fields as the reflect half: name, embedding and TAG of every field, position by position
+		if gs, ok := t.GoType().Underlying().(*types.Struct); !ok || gs.NumFields() != rt.NumField() {
+			k.viol("gotype-numfield", rt, idx, "GoType() = %v is not a struct with %d fields", t.GoType(), rt.NumField())
+		} else {
+			for i := 0; i < rt.NumField(); i++ {
+				gf, rf := gs.Field(i), rt.Field(i)
+				if gs.Tag(i) != string(rf.Tag) {
+					k.viol("gotype-field-tag", rt, idx, "go/types field %d %q has tag %q, reflect %q (tags of all fields: go/types %q)", i, rf.Name, gs.Tag(i), string(rf.Tag), c29GoTags(gs))
+					break
+				}
+				if gf.Name() != rf.Name || gf.Embedded() != rf.Anonymous {
+					k.viol("gotype-field", rt, idx, "go/types field %d = {%q embedded %v}, reflect {%q %v}", i, gf.Name(), gf.Embedded(), rf.Name, rf.Anonymous)
+					break
+				}
+			}
+		}
 		for i := 0; i < rt.NumField(); i++ {
 			f, rf := t.Field(i), rt.Field(i)
 			if f.Name != rf.Name || f.Offset != rf.Offset || f.Anonymous != rf.Anonymous || f.Tag != rf.Tag || len(f.Index) != 1 || f.Index[0] != i {
@@ -587,6 +605,14 @@ func (k *c29Checker) attrs(t xr.Type, rt r.Type, idx int) {
 	if rt.Kind() != r.Interface {
 		k.methods(t, rt, idx)
 	}
+}
+
+func c29GoTags(gs *types.Struct) []string {
+	tags := make([]string, gs.NumFields())
+	for i := range tags {
+		tags[i] = gs.Tag(i)
+	}
+	return tags
 }
 
 // ifaceMethods: an interface type lists exactly reflect's methods (all of them, unexported included).
@@ -695,8 +721,18 @@ func (k *c29Checker) methods(t xr.Type, rt r.Type, idx int) {
 func (k *c29Checker) fieldByName(t xr.Type, rt r.Type, idx int) {
 	type occ struct{ pkgs map[string]bool }
 	names := map[string]*occ{}
+	mnames := map[string]bool{} // exported methods of every embedded field type at every depth: candidates for promotion
 	var walk func(st r.Type, depth int, onpath map[r.Type]bool)
 	walk = func(st r.Type, depth int, onpath map[r.Type]bool) {
+		if depth > 0 && depth <= 5 {
+			mset := st
+			if st.Kind() != r.Ptr && st.Kind() != r.Interface {
+				mset = r.PtrTo(st)
+			}
+			for i := 0; i < mset.NumMethod(); i++ {
+				mnames[mset.Method(i).Name] = true
+			}
+		}
 		if st.Kind() == r.Ptr {
 			st = st.Elem()
 		}
@@ -759,6 +795,37 @@ func (k *c29Checker) fieldByName(t xr.Type, rt r.Type, idx int) {
 			}
 			if len(rf.Index) == 1 && f.Offset != rf.Offset {
 				k.viol("fieldbyname-offset", rt, idx, "FieldByName(%q).Offset = %d, reflect %d", name, f.Offset, rf.Offset)
+			}
+		}
+	}
+	// promoted methods: a method name that some embedded type offers but that is NOT in the method set of *T
+	// (ambiguous at its shallowest depth) must not be reported as found exactly once. Names that are also field
+	// names somewhere in the tree are left out (fields and methods compete in one selector lookup, MethodByName
+	// looks at methods only). Methods that ARE in the method set are compared by methods().
+	sorted = sorted[:0]
+	for n := range mnames {
+		if names[n] == nil {
+			sorted = append(sorted, n)
+		}
+	}
+	sort.Strings(sorted)
+	pt := r.PtrTo(rt)
+	for _, name := range sorted {
+		if _, ok := pt.MethodByName(name); ok {
+			continue
+		}
+		k.c.Nontrivial("mbn-ambiguous|" + rt.String() + "|" + name)
+		for pass := 0; pass < 2; pass++ { // second pass answers from the cache
+			var n int
+			var m xr.Method
+			if p := core.Catch(func() { m, n = t.MethodByName(name, "") }); p != nil {
+				k.viol("methodbyname-panics", rt, idx, "MethodByName(%q) panics: %v", name, p)
+				break
+			}
+			k.c.Count("promoted_method_lookups_not_in_method_set", 1)
+			if n == 1 {
+				k.viol("methodbyname-count", rt, idx, "MethodByName(%q) finds exactly one method (field index %v, pass %d) but the method set of %v does not have it: the selector is ambiguous", name, m.FieldIndex, pass, pt)
+				break
 			}
 		}
 	}
